@@ -16,10 +16,11 @@
       createLazySchemaForType                       (Lazy(getter) whose wrapper cannot call the
                                                     object's Parse: every non-nil value passes;
                                                     for slices `Slice[any](lazy)` + the field's rules)
-      createSchemaFromTypeWithInfo, Map case        (createNestedStructSchema: a FRESH visited set)
+      createSchemaFromTypeWithInfo, Map case        (createNestedStructSchema with the caller's visited set:
+                                                    a type on the path becomes the lazy schema)
     fused with the evaluation of the schema it builds, so that it is a function of the value.
-  * `Code.builds` — whether that construction terminates (a type recursive through a map value is
-    expanded with a fresh `visited` on every round: FromStruct never returns).
+  * `Code.builds` — whether that construction terminates (before the map walk shared `visited`, a type
+    recursive through a map value was expanded with a fresh set on every round: FromStruct never returned).
 -/
 namespace Gozod.Tags.Graph
 
@@ -121,11 +122,12 @@ def cEdge (cyc : Bool) (env : Env) (visited : List Nat) (e : Edge) : GVal → Bo
     | .val | .emb => false
     | .ptr =>
       if onPath cyc visited e.target then false                    -- Lazy treats a nil pointer as nil input and is not Optional (bc2d4fc)
-      else !hasTags (decl env e.target)                            -- Object rejects nil (also when not required); Any() accepts it
+      else !hasTags (decl env e.target) && !(e.tag == .required)   -- Object rejects nil (also when not required); Any() accepts it unless `required` (NonOptional)
     | _ => false                                                    -- a nil slice / map is "expected slice, received slice"
   | .list xs =>
-    if e.wrap.isMap then
-      cAll cyc env [] (hasTags (decl env e.target)) e.target xs     -- createNestedStructSchema: fresh `visited`
+    if e.wrap.isMap then                                            -- createNestedStructSchema(valueType, visited)
+      (if onPath cyc visited e.target then noNilElem xs             -- Map(String(), Lazy(…)): non-nil values pass unchecked
+       else cAll cyc env visited (hasTags (decl env e.target)) e.target xs)
     else if e.wrap.isSlice then
       lenOK e.tag xs.length &&
         (if onPath cyc visited e.target then noNilElem xs           -- Slice[any](Lazy(…)): non-nil elements pass unchecked
@@ -158,7 +160,6 @@ def expands (env : Env) : Nat → List Nat → Nat → Bool
   | fuel + 1, visited, t =>
     (decl env t).edges.all fun e =>
       if !e.tagged then true
-      else if e.wrap.isMap then (!hasTags (decl env e.target)) || expands env fuel [] e.target
       else if visited.contains e.target then true
       else (!hasTags (decl env e.target)) || expands env fuel (t :: visited) e.target
 
@@ -174,7 +175,7 @@ end Code
 /-! ### where the code is known to deviate from the documented meaning even without a cycle
 
   * a nil slice / map in a tagged field that is not `required` is rejected ("expected slice, received slice");
-  * a nil pointer in a tagged pointer field: rejected iff the target type has tagged fields — whatever the tag says;
+  * a nil pointer in a tagged pointer field that is not `required` is rejected when the target type has tagged fields;
   * a nil element pointer inside a slice / map of pointers to a tagged struct type is rejected;
   * `max=N` on a map field is not applied (not generated: map fields carry `required` or no tag).
   `devEdges` walks value and type graph together and says whether the value touches one of these. -/
@@ -183,7 +184,7 @@ namespace Dev
 def nilDev (env : Env) (e : Edge) : Bool :=
   match e.wrap with
   | .val | .emb => false
-  | .ptr => (e.tag == .required) != Code.hasTags (decl env e.target)
+  | .ptr => !(e.tag == .required) && Code.hasTags (decl env e.target)
   | _ => !(e.tag == .required)
 
 mutual
